@@ -538,6 +538,12 @@ func runC06(c *core.Ctx, o Options) {
 	c.Explanation += " T3 also: no refusal path resets or sets a sequence counter; premise: the anchored needles of ValueByTag (the Reject's RefSeqNum is looked up in the raw bytes)."
 	c.Explanation += " T1 also: WaitingLogonAnswer (where the next Logon is accepted unchecked as the answer to the session's own) is entered only on paths that send the session's own Logon. T7 premise: the integrity rules V1–V7 of C03 (a damaged Logon is not well-formed)."
 	c.Explanation += " T1 premise: the Logon is decoded first, from the handler's own input, into a fresh builder (shared with C07.G2/C16.J1)."
+	// T4 (premise): the Logon reply reaches the queue — the enqueue waits for room, it never gives up
+	checkBatchDelivery(c, "T4")
+	// T7 (premise): a Logon with a valueless field is not well-formed — the decoder hands every located value to FromBytes
+	checkValueExtraction(c, "T7")
+	checkKeyValuePlain(c, "T7")
+	c.Explanation += " T4 premise (= C10.Y8): sendRaw blocks until there is room. T7 also: the decoder's value extraction (= C02.R5) and KeyValue.FromBytes pass every located value on."
 	c.RuleMin = map[string]int{"M1": 3, "T1": 6, "T2": 4, "T3": 3, "T4": 1, "T5": 2, "T6": 1, "T7": 12}
 	c.MinObl = 17
 }
